@@ -108,7 +108,7 @@ def generate(ctx):
                "power": rng.choice([1.0, 2.0, 0.5, 3.0, round(rng.uniform(0.3, 3.5), 3)]) if inside else rng.choice([1.0, 2.0, 3.0]), "reduction": rng.choice(REDUCTIONS),
                "red_via": rng.choice(["constructor", "accumulator"]), "dtype": rng.choice(["float32", "float64"]),
                "inside": inside, "seed": rng.randrange(1 << 30), "ops": ops,
-               "shape": [rng.randint(1, 3), rng.randint(1, 4)]}
+               "shape": [rng.randint(1, 3), rng.randint(1, 4)], "one_sided": rng.choice([None, None, "upper", "lower"])}
     combos = list(itertools.product(["multiplicative", "scaled_multiplicative", "scaled_power", "sharp"],
                                     ["both", "full"], ["inside", "at_limits", "outside"]))
     for rep in range(3 if th else 1):
@@ -159,7 +159,9 @@ def _configure(ctx, conn, desc, spy):
             if half == "full":
                 f = getattr(inff, "bound_" + kind)
                 kw = {"upper_power": power, "lower_power": power} if "power" in kind else {}
-                acc.fullbound(f, mx, mn, **kw)
+                one = desc.get("one_sided") if "scaled" not in kind else None
+                # documented limit type float | None: a full bound may name one side only
+                acc.fullbound(f, None if one == "lower" else mx, None if one == "upper" else mn, **kw)
             else:
                 kwu = {}
                 if "power" in kind:
@@ -182,6 +184,11 @@ def _expected(desc, x, pos_parts, neg_parts, mx, mn):
         return x
     ku = kind if (kind != "none" and half in ("both", "upper", "full")) else "none"
     kl = kind if (kind != "none" and half in ("both", "lower", "full")) else "none"
+    if half == "full" and desc.get("one_sided") and "scaled" not in kind:
+        if desc["one_sided"] == "lower":
+            ku = "none"
+        else:
+            kl = "none"
     out = x.copy()
     if pos is not None:
         out = out + _ref_upper(ku, x, pos, mx, mn, power)
@@ -207,6 +214,9 @@ def _algebra(ctx, desc):
     tdt = torch.float64 if desc["dtype"] == "float64" else torch.float32
     spy = {"calls": 0}
     tag = f"{desc['bound']}.{desc['half']}"
+    if desc["half"] == "full" and desc.get("one_sided") and "scaled" not in desc["bound"] and desc["bound"] != "none":
+        tag += "." + desc["one_sided"] + "_only"
+        ctx.count("one_sided_full_bound_cases")
     try:
         conn = _make_conn(shape, desc["dtype"])
         upd, mx, mn = _configure(ctx, conn, desc, spy)
